@@ -86,7 +86,8 @@ def make_record(desc, idx, clip=0, name=None, real=False):
     return r
 
 
-def make_psd(records, channels=None):
+def make_psd(records, channels=None, block=None, depth=8):
+    """block = 16 / 32: the layer info sits in an Lr16 / Lr32 tagged block of the document (header depth given separately)"""
     from psd_tools.psd import PSD
     from psd_tools.psd.header import FileHeader
     from psd_tools.psd.layer_and_mask import (ChannelDataList, ChannelImageData, LayerAndMaskInformation, LayerInfo,
@@ -97,9 +98,18 @@ def make_psd(records, channels=None):
     li = LayerInfo(layer_count=len(records), layer_records=LayerRecords(records), channel_image_data=ChannelImageData(channels))
     from psd_tools.psd.image_data import ImageData
 
-    header = FileHeader(width=4, height=4, channels=3, depth=8)
-    return PSD(header=header, image_data=ImageData.new(header),
-               layer_and_mask_information=LayerAndMaskInformation(layer_info=li)), channels
+    header = FileHeader(width=4, height=4, channels=3, depth=depth)
+    if block:
+        from psd_tools.constants import Tag
+        from psd_tools.psd.tagged_blocks import TaggedBlock, TaggedBlocks
+
+        key = Tag.LAYER_16 if block == 16 else Tag.LAYER_32
+        tbs = TaggedBlocks()
+        tbs[key] = TaggedBlock(key=key, data=li)
+        lami = LayerAndMaskInformation(layer_info=LayerInfo(), tagged_blocks=tbs)
+    else:
+        lami = LayerAndMaskInformation(layer_info=li)
+    return PSD(header=header, image_data=ImageData.new(header), layer_and_mask_information=lami), channels
 
 
 def kind_code(layer):
@@ -137,13 +147,13 @@ def ser_tree(group, rid):
     return out
 
 
-def impl_open(descs, clips=None, names=None):
+def impl_open(descs, clips=None, names=None, block=None, depth=8):
     """-> (canonical outcome, psd or None, records, channels)"""
     from psd_tools import PSDImage
     from psd_tools.api.psd_image import _build_record_tree
 
     records = [make_record(d, i, clips[i] if clips else 0, names[i] if names else None) for i, d in enumerate(descs)]
-    data, channels = make_psd(records)
+    data, channels = make_psd(records, None, block, depth)
     try:
         psd = PSDImage(data)
     except Exception as e:  # noqa
@@ -329,8 +339,9 @@ def check_parents(group, ck_fail):
             check_parents(layer, ck_fail)
 
 
-def oracle(ck, descs, clips, out, psd, records, channels, label, names=None):
-    inp = {"descs": [list(d[:3]) + [list(d[3])] for d in descs], "clips": clips, "label": label, "names": names}
+def oracle(ck, descs, clips, out, psd, records, channels, label, names=None, block=None, depth=8):
+    inp = {"descs": [list(d[:3]) + [list(d[3])] for d in descs], "clips": clips, "label": label, "names": names,
+           "block": block, "depth": depth}
     exp = expected_tree(descs)
     if exp[0] == "extra-end":
         if out != [4]:
@@ -607,6 +618,28 @@ def run():
         if psd is not None and label != "kinds" and all(not d[3] for d in descs) and (nreopen < (20000 if ck.tier == "thorough" else 2500)):
             nreopen += 1
             save_reopen_check(ck, psd, descs, clips, label, None)
+    # layer info carried by an Lr16 / Lr32 block, with every header depth (the reader takes the block whenever it is there)
+    plain = {"L": (-1, -1, 0, []), "B": (3, -1, 0, []), "E": (1, -1, 0, [31])}
+    for n in range(1, 5):
+        for seq in itertools.product("LBE", repeat=n):
+            d, okb = 0, True
+            for t in seq:
+                d += 1 if t == "B" else -1 if t == "E" else 0
+                okb = okb and d >= 0
+            if not (okb and d == 0):
+                continue
+            descs = [plain[t] if t != "L" else (-1, -1, 1, [ck.rng.choice(TYPE_T + TABLE_T + VECTOR_T)]) for t in seq]
+            for block in (16, 32):
+                for depth in (8, 16, 32):
+                    clips = [0] * len(descs)
+                    out, psd, records, channels = impl_open(descs, clips, None, block, depth)
+                    cases["seq"].append(((descs, clips), out))
+                    try:
+                        oracle(ck, descs, clips, out, psd, records, channels, "lrblock", None, block, depth)
+                    except Exception as e:  # noqa
+                        ck.fail("oracle-raises", {"descs": [list(x[:3]) + [list(x[3])] for x in descs], "clips": clips, "label": "lrblock",
+                                                  "names": None, "block": block, "depth": depth}, repr(e), "tree can be inspected")
+                    ck.count("lrblock:Lr%d/depth%d" % (block, depth))
     # records equal by value but distinct as objects
     ndup = 0
     for descs, names in gen_value_equal(ck):
@@ -693,7 +726,7 @@ def replay(path):
         print("observed:", out)
         print("kind    :", fl["kind"], "| recorded expected:", fl["expected"])
         return 1
-    out, psd, records, channels = impl_open(descs, inp.get("clips"), inp.get("names"))
+    out, psd, records, channels = impl_open(descs, inp.get("clips"), inp.get("names"), inp.get("block"), inp.get("depth") or 8)
     print("roles   :", "".join(role(d) for d in descs), "| names:", inp.get("names"))
     if psd is not None:
         from psd_tools.api.psd_image import _build_record_tree
